@@ -70,6 +70,12 @@ func (fc *fnCtx) chanRecv(st *state, ch Val, cond string, pos token.Pos, ins ssa
 		al := fc.heapVar(st, "alloc", "(Array V Bool)")
 		fc.assume(st, fmt.Sprintf("(or (= %s vnil) (select %s %s))", v.T, al, v.T))
 	}
+	if p, okp := fc.prov[ch.T]; okp {
+		key := strings.Replace(strings.TrimPrefix(p, "H!"), "!", ".", 1)
+		if fc.e.db.neverClosed[key] {
+			fc.assume(st, ok.T) // no code in /repo closes this channel (structural obligation neverclosed.*)
+		}
+	}
 	if inv := fc.chanInv(st, ch, v); inv != "" {
 		fc.assume(st, fmt.Sprintf("(=> (and %s %s) %s)", cond, ok.T, inv))
 		fc.trusted["chaninv "+fc.prov[ch.T]+" (proved at the sends in /repo)"] = true
